@@ -297,6 +297,10 @@ func (t *Table) get(offset uint64) storage.Entry {
 	vlen := binary.BigEndian.Uint32(t.memory[offset : offset+4])
 	offset += 4
 	e.SetValue(t.memory[offset : offset+uint64(vlen)])
+	// The caller owns the returned entry. Hand out a copy of the value, not a window into the
+	// table's memory: that memory is reused when the table is recycled, and a caller that
+	// modifies the returned slice would modify the stored value.
+	e.SetValue(append([]byte{}, e.Value()...))
 	return e
 }
 
@@ -338,6 +342,10 @@ func (t *Table) Get(hkey uint64) (storage.Entry, error) {
 	vlen := binary.BigEndian.Uint32(t.memory[offset : offset+4])
 	offset += 4
 	e.SetValue(t.memory[offset : offset+uint64(vlen)])
+	// The caller owns the returned entry. Hand out a copy of the value, not a window into the
+	// table's memory: that memory is reused when the table is recycled, and a caller that
+	// modifies the returned slice would modify the stored value.
+	e.SetValue(append([]byte{}, e.Value()...))
 
 	return e, nil
 }
